@@ -249,8 +249,8 @@ def _get_interpolate(kernel):
         for i in range(npts):
             kx = coord[i, -1]
 
-            x0 = np.ceil(kx - width[-1] / 2)
-            x1 = np.floor(kx + width[-1] / 2)
+            x0 = int(np.ceil(kx - width[-1] / 2))
+            x1 = int(np.floor(kx + width[-1] / 2))
 
             for x in range(x0, x1 + 1):
                 w = kernel((x - kx) / (width[-1] / 2), param[-1])
@@ -268,11 +268,11 @@ def _get_interpolate(kernel):
         for i in range(npts):
             kx, ky = coord[i, -1], coord[i, -2]
 
-            x0, y0 = (np.ceil(kx - width[-1] / 2), np.ceil(ky - width[-2] / 2))
+            x0, y0 = (int(np.ceil(kx - width[-1] / 2)), int(np.ceil(ky - width[-2] / 2)))
 
             x1, y1 = (
-                np.floor(kx + width[-1] / 2),
-                np.floor(ky + width[-2] / 2),
+                int(np.floor(kx + width[-1] / 2)),
+                int(np.floor(ky + width[-2] / 2)),
             )
 
             for y in range(y0, y1 + 1):
@@ -295,15 +295,15 @@ def _get_interpolate(kernel):
             kx, ky, kz = coord[i, -1], coord[i, -2], coord[i, -3]
 
             x0, y0, z0 = (
-                np.ceil(kx - width[-1] / 2),
-                np.ceil(ky - width[-2] / 2),
-                np.ceil(kz - width[-3] / 2),
+                int(np.ceil(kx - width[-1] / 2)),
+                int(np.ceil(ky - width[-2] / 2)),
+                int(np.ceil(kz - width[-3] / 2)),
             )
 
             x1, y1, z1 = (
-                np.floor(kx + width[-1] / 2),
-                np.floor(ky + width[-2] / 2),
-                np.floor(kz + width[-3] / 2),
+                int(np.floor(kx + width[-1] / 2)),
+                int(np.floor(ky + width[-2] / 2)),
+                int(np.floor(kz + width[-3] / 2)),
             )
 
             for z in range(z0, z1 + 1):
@@ -339,8 +339,8 @@ def _get_gridding(kernel):
         for i in range(npts):
             kx = coord[i, -1]
 
-            x0 = np.ceil(kx - width[-1] / 2)
-            x1 = np.floor(kx + width[-1] / 2)
+            x0 = int(np.ceil(kx - width[-1] / 2))
+            x1 = int(np.floor(kx + width[-1] / 2))
             for x in range(x0, x1 + 1):
                 w = kernel((x - kx) / (width[-1] / 2), param[-1])
 
@@ -357,11 +357,11 @@ def _get_gridding(kernel):
         for i in range(npts):
             kx, ky = coord[i, -1], coord[i, -2]
 
-            x0, y0 = (np.ceil(kx - width[-1] / 2), np.ceil(ky - width[-2] / 2))
+            x0, y0 = (int(np.ceil(kx - width[-1] / 2)), int(np.ceil(ky - width[-2] / 2)))
 
             x1, y1 = (
-                np.floor(kx + width[-1] / 2),
-                np.floor(ky + width[-2] / 2),
+                int(np.floor(kx + width[-1] / 2)),
+                int(np.floor(ky + width[-2] / 2)),
             )
             for y in range(y0, y1 + 1):
                 wy = kernel((y - ky) / (width[-2] / 2), param[-2])
@@ -382,15 +382,15 @@ def _get_gridding(kernel):
             kx, ky, kz = coord[i, -1], coord[i, -2], coord[i, -3]
 
             x0, y0, z0 = (
-                np.ceil(kx - width[-1] / 2),
-                np.ceil(ky - width[-2] / 2),
-                np.ceil(kz - width[-3] / 2),
+                int(np.ceil(kx - width[-1] / 2)),
+                int(np.ceil(ky - width[-2] / 2)),
+                int(np.ceil(kz - width[-3] / 2)),
             )
 
             x1, y1, z1 = (
-                np.floor(kx + width[-1] / 2),
-                np.floor(ky + width[-2] / 2),
-                np.floor(kz + width[-3] / 2),
+                int(np.floor(kx + width[-1] / 2)),
+                int(np.floor(ky + width[-2] / 2)),
+                int(np.floor(kz + width[-3] / 2)),
             )
 
             for z in range(z0, z1 + 1):
